@@ -42,6 +42,7 @@ def gen_plan(rng, index, tier):
     if rng.random() < 0.4:
         bp["pins"] = True  # blocks with a pin lattice: components carry multi-index / coordinate locators in the block's grid
         bp["pinrings"] = 2
+        bp["pinhole"] = rng.random() < 0.5  # a lattice with an empty position
     if rng.random() < 0.25:
         # square assemblies on a Cartesian grid (Cartesian pin lattices when there are pins)
         bp.update({"geom": "cartesian", "symmetry": rng.choice(["full", "quarter reflective through center assembly"])})
